@@ -15,7 +15,7 @@ G = W.G
 CWD = '/tmp'
 PLACES = ['{n}.ts', 'sub/{n}.ts', 'sub/deep/{n}.ts', '../up/{n}.ts', 'shared.ts']
 # placements per type index: several types may share `shared.ts`
-MENUS = [['{n}.ts', 'shared.ts'], ['{n}.ts', 'shared.ts', 'sub/{n}.ts'], ['shared.ts', '../up/{n}.ts'], ['sub/deep/{n}.ts', 'shared.ts']]
+MENUS = [['{n}.ts', 'shared.ts'], ['{n}.ts', 'shared.ts', 'sub/{n}'], ['shared.ts', '../up/{n}.ts'], ['sub/deep/{n}.ts', 'shared.ts']]
 
 
 def explore(item):
